@@ -57,6 +57,8 @@ AuxInit == [rem      |-> [d \in Devs |-> 0],          \* C06: operational time s
             idle     |-> [d \in Devs |-> 0],          \* C08: since when the device has been idle (empty and operational)
             inSeq    |-> [d \in Devs |-> <<>>],       \* C17: leaf parts in arrival order
             outSeq   |-> [d \in Devs |-> <<>>],       \* C17: leaf parts in leaving order
+            disp     |-> <<>>,                        \* C15: dispatched events <<time, device, kind, priority>>
+            runEnd   |-> None,                        \* C01: end of the current run
             steps    |-> <<0, 0>>]                    \* C03: <<instant, events dispatched in it>>
 
 Supplied(pre, post, s) == post.dev[s].supplied - pre.dev[s].supplied
@@ -109,6 +111,8 @@ AuxNext(aux, pre, ev, post) ==
      inSeq |-> [d \in Devs |-> IF Kind(d) = "batcher" THEN aux.inSeq[d] \o ArrivedLeaves(pre, ev, d) ELSE <<>>],
      outSeq |-> [d \in Devs |-> IF Kind(d) = "batcher" /\ pre.dev[d].out # 0 /\ post.dev[d].out # pre.dev[d].out
                                 THEN aux.outSeq[d] \o LeavesOf(pre, pre.dev[d].out) ELSE aux.outSeq[d]],
+     disp |-> IF cfg.trace /\ IsStep(ev) /\ ~ev.direct THEN Append(aux.disp, <<ev.time, ev.asset, ev.kind, ev.prio>>) ELSE aux.disp,
+     runEnd |-> IF ev.op \in {"init", "run_begin"} THEN pre.now + ev.d ELSE aux.runEnd,
      steps |-> IF post.now > pre.now THEN <<post.now, 1>> ELSE <<post.now, aux.steps[2] + (IF IsStep(ev) THEN 1 ELSE 0)>>]
 
 (***************************************************************************)
@@ -438,6 +442,25 @@ C17(pre, ev, post, aux) ==
            /\ \A d \in Sinks : post.dev[d].count - pre.dev[d].count = Len(ArrivedLeaves(pre, ev, d))
            /\ \A d \in Buffers : post.dev[d].level = BufLeaves(post, d))
 
+(***************************************************************************)
+(* C01 on every model assembled from the devices: dispatch order and clock *)
+(***************************************************************************)
+C01(pre, ev, post, aux) ==
+    C("C01.FloorStepMin", (IsStep(ev) /\ ~ev.direct) =>
+            /\ ev.minhead
+            /\ \E e \in MinEvents(pre.q) : e.time = ev.time /\ e.prio = ev.prio /\ e.asset = ev.asset /\ e.kind = ev.kind)
+    \cup C("C01.FloorStepClock", (IsStep(ev) /\ ~ev.direct) => post.now = ev.time)
+    \cup C("C01.FloorClockMonotone", post.now >= pre.now)
+    \cup C("C01.FloorRunNotBeyond", (IsStep(ev) /\ aux.runEnd # None) => post.now <= aux.runEnd)
+    \cup C("C01.FloorRunComplete",
+           ev.op = "run_end" => /\ post.now = ev.t0 + ev.d
+                                /\ \A e \in post.q : e.time > post.now \/ (e.time = post.now /\ e.prio <= 10))
+
+(* the exported event trace lists exactly the dispatched events in dispatch order *)
+C15t(pre, ev, post, aux) ==
+    C("C15.TraceFileListsDispatchedEvents",
+      (ev.op = "run_end" /\ cfg.trace) => [i \in DOMAIN ev.trace |-> <<ev.trace[i][1], ev.trace[i][2], ev.trace[i][3], ev.trace[i][4]>>] = aux.disp)
+
 (* the clauses that do not need the recorded datapoints (ev.recs, ev.vh): checked on the closed      *)
 (* specification as well as on recorded runs                                                        *)
 DesignClauses(pre, ev, post, aux) ==
@@ -446,7 +469,7 @@ DesignClauses(pre, ev, post, aux) ==
     \cup C17(pre, ev, post, aux)
 
 ObsClauses(pre, ev, post, aux, jpost, jpre) ==
-    C08(pre, ev, post, aux) \cup C17(pre, ev, post, aux) \cup
+    C01(pre, ev, post, aux) \cup C15t(pre, ev, post, aux) \cup C08(pre, ev, post, aux) \cup C17(pre, ev, post, aux) \cup
     C02(pre, ev, post, aux) \cup C03(pre, ev, post, aux) \cup C04(pre, ev, post, aux) \cup C05(pre, ev, post, aux)
     \cup C06(pre, ev, post, aux) \cup C11(pre, ev, post, aux) \cup C13(pre, ev, post, aux) \cup C15(pre, ev, post, aux)
     \cup C16(pre, ev, post, aux, jpost)
